@@ -61,10 +61,10 @@ Ltac end_b24 hB2 Hown :=
     | intros X; split; auto; intros ->; destruct (hB2 _ _ _ X) as (_ & Y & _); congruence ]
   | ] end end.
 
-Lemma sess_end_inv_ts c cancel st :
-  sc_isA (scalls st c) = true -> s_b (ses st (sc_s (scalls st c))) <> None -> Inv st -> Inv (sess_end c cancel st).
+Lemma sess_end_inv_fs1 c cancel st :
+  sc_isA (scalls st c) = false -> s_a (ses st (sc_s (scalls st c))) <> None -> t_listening (trk st (sc_dt (scalls st c))) = true -> Inv st -> Inv (sess_end c cancel st).
 Proof.
-  intros Hcase1 Hcase2 H. unfold sess_end.
+  intros Hcase1 Hcase2 Hcase3 H.  unfold sess_end.
   destruct (end_error (scalls st c) cancel) as [e|] eqn:Ee; [|exact H].
   assert (Hal : alive (sc_st (scalls st c)) = true).
   { unfold end_error in Ee. destruct (sc_st (scalls st c)); try discriminate; reflexivity. }
@@ -88,7 +88,8 @@ Proof.
       assert (Ib : b = sc_isA (scalls st c)) by congruence.
       rewrite Ib, <- S0, <- Ss in Hs0. congruence. }
     destruct (sc_isA (scalls st c)) eqn:Eia; cbn [side negb] in *.
-    + destruct (s_b (ses st (sc_s (scalls st c)))) as [d|] eqn:Ed.
+    + exfalso; congruence.
+    + destruct (s_a (ses st (sc_s (scalls st c)))) as [d|] eqn:Ed.
       * unfold maybe_release_session, wake_sess, clear_partner, put_ses, put_box.
         cbn. rewrite Hmap. cbn. rewrite !upd_same. cbn. rewrite Ed. cbn.
         pose proof (PresS.partner_facts st c d H Hal) as Hpf. rewrite Eia in Hpf. cbn in Hpf. specialize (Hpf Ed).
@@ -98,24 +99,13 @@ Proof.
         {
           inv_split H. unfold put_scall.
           constructor; cbn; auto; try (timeout 200 reg_clause).
-          all: try (end_b3 st c true hA1 hA3 hB3 Hpd Hne Hia Hmap).
+          all: try (end_b3 st c false hA1 hA3 hB3 Hpd Hne Hia Hmap).
           all: try (end_b4 st c hB2 hB4 Huniq).
         }
         destruct (is_nil (remove (sc_src (scalls st c)) (t_wants (trk st (sc_dt (scalls st c)))))) eqn:Enil; cbn.
-        { apply is_nil_spec in Enil.
-          inv_split H. unfold put_scall.
-          constructor; cbn; auto; try (timeout 200 reg_clause).
-          all: try (end_b3 st c true hA1 hA3 hB3 Hpd Hne Hia Hmap).
-          all: try (end_b4 st c hB2 hB4 Huniq).
-        }
-        { assert (Hnn : remove (sc_src (scalls st c)) (t_wants (trk st (sc_dt (scalls st c)))) <> []) by (intros X; rewrite X in Enil; discriminate).
-          inv_split H. unfold put_scall.
-          constructor; cbn; auto; try (timeout 200 reg_clause).
-          all: try (end_b3 st c true hA1 hA3 hB3 Hpd Hne Hia Hmap).
-          all: try (end_b4 st c hB2 hB4 Huniq).
-        }
+        { exfalso; congruence. }
+        { exfalso; congruence. }
       * exfalso; congruence.
-    + exfalso; congruence.
   - (* not registered any more: cleanup is a no-op *)
     inv_split H. unfold put_scall.
     assert (Hns : forall s b, side (ses st s) b <> Some c).
